@@ -1,15 +1,22 @@
 #!/bin/bash
-# usage: try_dir.sh <agent_out_dir> — runs all registered checks on each n/patch.diff using the scratch copy /tmp/head
-for d in "$1"/*/; do
+# usage: try_dir.sh <agent_out_dir> [only_n...] — runs all registered checks on each n/patch.diff using the scratch copy /tmp/head
+# STHLINT_BIN overrides the binary (default /verif/bin/sthlint)
+BIN=${STHLINT_BIN:-/verif/bin/sthlint}
+dir="$1"; shift
+for d in "$dir"/*/; do
   n=$(basename "$d")
   [ -f "$d/patch.diff" ] || continue
+  if [ $# -gt 0 ]; then case " $* " in *" $n "*) ;; *) continue;; esac; fi
   cd /tmp/head && git checkout -q -- . && if ! git apply "$d/patch.diff" 2>/dev/null; then echo "== $n: patch does not apply"; continue; fi
-  fired=""
-  for p in $(/verif/bin/sthlint -list); do
-    out=$(timeout 600 /verif/bin/sthlint -property $p -repo /tmp/head -no-evidence 2>&1)
-    k=$(echo "$out" | grep '^BAD ' | head -1 | cut -c5- | cut -d'|' -f1)
-    [ -n "$k" ] && fired="$fired $p:[$k]"
+  tmpd=$(mktemp -d)
+  for p in $($BIN -list); do
+    ( out=$(timeout 600 $BIN -property $p -repo /tmp/head -verif /verif -no-evidence 2>&1)
+      k=$(echo "$out" | grep '^BAD ' | head -1 | cut -c5- | cut -d'|' -f1)
+      [ -n "$k" ] && echo "$p:[$k]" > $tmpd/$p ) &
   done
+  wait
+  fired=$(cat $tmpd/* 2>/dev/null | tr '\n' ' ')
+  rm -rf $tmpd
   git checkout -q -- .
   if [ -n "$fired" ]; then echo "== $n: FIRED $fired" | cut -c1-400; else echo "== $n: MISSED"; fi
 done
